@@ -173,7 +173,7 @@ history_prop!(
 
 // ------------------------------------------------------------------------------ C04
 
-pub const C04_RULE: &str = "histories of Move/Quiet/Noisy/Special/Undo/Unwind/Probe operations (up to 320 ops) interpreted on one engine board in lock-step with the reference; every position is registered (count_current_position) after its move and unregistered before the undo; a full observable snapshot (64 squares, 12 piece bitboards, occupancy summaries, turn, rights, ep, half-move clock, move counter, key, max_seen_position_count) is taken before every apply and compared after the matching undo, for single undos, unwinds of k plies and the final full unwind; probes take the snapshot around generate_moves, annotated generation, notation enumeration, game_ending, count_positions and alpha_beta_search. Non-trivial = history reaches nesting depth >= 8 and contains a castle, en passant, promotion(-capture) or capture of a home rook with its right; distinct = hash of the op sequence.";
+pub const C04_RULE: &str = "histories of Move/Quiet/Noisy/Special/Undo/Unwind/Probe operations (up to 320 ops) interpreted on one engine board in lock-step with the reference; every position is registered (count_current_position) after its move and unregistered before the undo; a full observable snapshot (64 squares, 12 piece bitboards, occupancy summaries, turn, rights, ep, half-move clock, move counter, key, max_seen_position_count) is taken before every apply and compared after the matching undo, for single undos, unwinds of k plies and the final full unwind; probes take the snapshot around generate_moves, annotated generation, notation enumeration, game_ending, count_positions and alpha_beta_search. Deep mate searches: depth 5..6 searches of positions of at most four men with a mate close by (mate in one at the root in some), snapshot - turn included - identical afterwards. Non-trivial = history reaches nesting depth >= 8 and contains a castle, en passant, promotion(-capture) or capture of a home rook with its right; distinct = hash of the op sequence.";
 
 history_prop!(
     C04Histories,
